@@ -61,39 +61,26 @@ func IsDigit(c byte) bool { return c >= '0' && c <= '9' }
 func IsIdentPart(c byte) bool { return IsIdentStart(c) || IsDigit(c) }
 
 // TriviaOnly reports whether b consists only of white space and complete
-// `//` comments (a comment runs to the next '\n' or to the end of b, which
-// is acceptable only if atEnd, i.e. b reaches the end of the source).
+// `//` comments (a comment runs to the next line terminator - LF, CR LF or a
+// lone CR - or to the end of b, which is acceptable only if atEnd, i.e. b
+// reaches the end of the source).  hasNewline: b contains a line terminator.
 func TriviaOnly(b []byte, atEnd bool) (ok bool, hasNewline bool) {
+	loneCR := func(i int) bool { return b[i] == '\r' && !(i+1 < len(b) && b[i+1] == '\n') }
 	i := 0
 	for i < len(b) {
 		c := b[i]
 		switch {
 		case IsSpace(c):
-			if c == '\n' {
+			if c == '\n' || loneCR(i) {
 				hasNewline = true
 			}
 			i++
 		case c == '/' && i+1 < len(b) && b[i+1] == '/':
 			i += 2
-			loneCR := -1
-			for i < len(b) && b[i] != '\n' {
-				if b[i] == '\r' && loneCR < 0 && !(i+1 < len(b) && b[i+1] == '\n') {
-					loneCR = i
-				}
+			for i < len(b) && b[i] != '\n' && !loneCR(i) {
 				i++
 			}
 			if i >= len(b) {
-				// comment not closed by a line feed inside the gap: fine at the end of
-				// the input, and fine when a lone CR closes it (whether a lone CR is a
-				// line terminator is left open) and only white space follows
-				if !atEnd && loneCR >= 0 {
-					for _, x := range b[loneCR:] {
-						if !IsSpace(x) {
-							return false, hasNewline
-						}
-					}
-					return true, hasNewline
-				}
 				return atEnd, hasNewline
 			}
 		default:
